@@ -1311,3 +1311,96 @@ def value_sources(b, e, depth=0):
         else:
             out += value_sources(b, v, depth + 1)
     return out or [b.canon(e, 10)]
+
+
+# ---------------------------------------------------------------------------------------------------------
+# R6.5  the numbers are the selected target's: libclang's default target is used only for the host triple itself
+# ---------------------------------------------------------------------------------------------------------
+@RULES.rule("R6.5", "clang lays records out for the selected target: `--target=` is forced unless the triple IS the host's", floor=2)
+def r6_5(rep):
+    """Necessary: every asserted number comes from libclang, which computes it for the target it was given.  `Bindings::generate`
+    leaves the target to libclang's default only for a host build; that test has to compare whole triples — comparing the
+    architecture only (`x86_64-unknown-linux-gnu` vs `TARGET=x86_64-pc-windows-msvc`) asserts size 48 / offsets 8,16,32 for
+    `struct S { char c; long l; long double ld; void *p; }` where the selected target has 24 / 4,8,16."""
+    from hir import strip as _strip
+    prog = rep.prog
+    g = rep.need(prog.fn("Bindings::generate"), "Bindings::generate")
+    # the insertion of `--target=<effective target>`
+    ins = []
+    for c in g.calls(lambda n: n["k"] == "MCall" and n["name"] in ("insert", "push")):
+        txt = " ".join(str(x.get("v")) for x in g.walk(c) if x["k"] == "Lit" and isinstance(x.get("v"), str))
+        if "--target=" in txt:
+            ins.append(c)
+    rep.need(ins, "insertion of `--target=..` into the clang arguments in Bindings::generate")
+    eff = [n for n in g.nodes if n["k"] == "Let" and _strip(n.get("init") or {}).get("k") == "Call" and
+           (_strip(n["init"]).get("callee") or "").endswith("find_effective_target")]
+    rep.need(eff, "`find_effective_target(&options.clang_args)` in Bindings::generate")
+    for c in ins:
+        conds = [(pol, gg) for pol, kind, gg in g.guards(c) if kind == "cond"]
+        host = []
+        for pol, gg in conds:
+            for x in g.walk(gg):
+                if x["k"] == "Local":
+                    init = g.local_init(x["id"])
+                    if init is not None and any(y["k"] == "Path" and y.get("def") == "HOST_TARGET" for y in g.walk(init)):
+                        host.append((x, _strip(init)))
+                elif x["k"] == "Path" and x.get("def") == "HOST_TARGET":
+                    host.append((x, _strip(gg)))
+        rep.check(bool(host), "target-forced-unless-host", "the insertion is guarded by a comparison with HOST_TARGET", g.loc(c))
+        for x, e in host:
+            while e.get("k") == "Unary" and e.get("op") == "!":
+                e = _strip(e["e"])
+            ok = e.get("k") == "Binary" and e["op"] in ("==", "!=")
+            detail = g.canon(e, 4)[:140]
+            if ok:
+                def whole(side):
+                    side = _strip(side)
+                    if side.get("k") == "Local":
+                        d = g.local_def.get(side["id"])
+                        return bool(d) and d[0][0] == "let" and d[0][1] in eff        # a component of find_effective_target's result
+                    if side.get("k") == "Call" and (side.get("callee") or "").endswith("rust_to_clang_target"):
+                        a = _strip(side["args"][0])
+                        return a.get("k") == "Path" and a.get("def") == "HOST_TARGET"
+                    return False
+                ok = (whole(e["l"]) and whole(e["r"]))
+            rep.check(ok, "host-test-compares-whole-triples", "`%s`%s" % (detail, "" if ok else
+                      ": not an (in)equality of the whole host triple and the whole effective triple — a target that differs from the host "
+                      "only in OS / environment / vendor is laid out with the host's data model"), g.loc(x))
+
+
+# ---------------------------------------------------------------------------------------------------------
+# R6.6  what makes an instantiation "not concrete" in non-recursive mode: its own parameters only
+# ---------------------------------------------------------------------------------------------------------
+@RULES.rule("R6.6", "non-recursive allowlisting: an item is only said to use its own template parameters", floor=2)
+def r6_6(rep):
+    """Necessary: `TemplateInstantiation::codegen` skips the size/alignment assertion when the instantiation uses a template
+    parameter (`uses_any_template_parameters`).  Without recursive allowlisting the usage map is filled by hand; filling it with
+    every parameter in scope (`all_template_params`) says that `Foo<int>`, a member of `template<class U> struct Outer`, uses `U`:
+    `Foo<c_int>` appears in the bindings without its assertion."""
+    prog = rep.prog
+    f = rep.need(prog.fn("ir::context::BindgenContext::find_used_template_parameters"), "BindgenContext::find_used_template_parameters")
+    ent = [c for c in f.calls(lambda n: n["k"] == "MCall" and n["name"] in ("or_insert_with", "or_insert", "insert"))
+           if not (f.ty(c["recv"]) or "").startswith("std::collections::BTreeSet")]
+    hand = [c for c in ent if any(pol is False and kind == "cond" and "allowlist_recursively" in f.canon(gg) for pol, kind, gg in f.guards(c))]
+    rep.need(hand, "the hand-filled usage map of the `!allowlist_recursively` branch")
+    for c in hand:
+        key = None
+        r = strip(c["recv"])
+        if c["name"] == "insert":
+            key = strip(c["args"][0])
+            val = c["args"][1]
+        else:
+            key = strip(r["args"][0]) if r.get("k") == "MCall" and r.get("name") == "entry" else None
+            val = c["args"][0]
+        srcs = [x for x in f.walk(val) if x["k"] == "MCall" and "TemplateParameters" in (x.get("callee") or x.get("resolved") or "")]
+        names = sorted({x["name"] for x in srcs})
+        same = bool(srcs) and key is not None and all(f.canon(x["recv"]) == f.canon(key) for x in srcs)
+        rep.check(names == ["self_template_params"] and same, "fallback-usage-is-own-params",
+                  "usage[id] = id.self_template_params()" if names == ["self_template_params"] and same else
+                  "usage[%s] is filled from %s of %s: parameters of enclosing templates count as used by everything declared inside them"
+                  % (f.canon(key) if key else "?", names or "?", sorted({f.canon(x["recv"]) for x in srcs})), f.loc(c))
+    # the gate itself
+    ti = [b for p, b in prog.bodies.items() if "TemplateInstantiation" in p and p.endswith("::codegen")]
+    rep.need(ti, "TemplateInstantiation::codegen")
+    gate = [c for b in ti for c in b.calls(lambda n: n["k"] == "MCall" and n["name"] == "uses_any_template_parameters")]
+    rep.check(bool(gate), "instantiation-gate-present", "the assertion is skipped through BindgenContext::uses_any_template_parameters", ti[0].loc(ti[0].root))
